@@ -104,8 +104,18 @@ def countOccL (n : List Char) : List Char → Nat
 def contains (s needle : String) : Bool := isInfixL needle.toList s.toList
 def startsWithS (s p : String) : Bool := isPrefixL p.toList s.toList
 def endsWithS (s p : String) : Bool := isPrefixL p.toList.reverse s.toList.reverse
+/-- `'\n'.join(line.split('#')[0] for line in text.splitlines())` up to the final newline: a comment runs to the end of its line -/
+def stripCommentsL : Bool → List Char → List Char
+  | _, [] => []
+  | inComment, c :: cs =>
+    if c == '\n' then c :: stripCommentsL false cs
+    else if inComment then stripCommentsL true cs
+    else if c == '#' then stripCommentsL true cs
+    else c :: stripCommentsL false cs
 /-- the source-text predicates of `DecoratedFunction`, with the needles the translator read from the library -/
-def headerOf (source : String) : List Char := beforeFirstL decoratorSplit.toList source.toList
+def rawHeaderOf (source : String) : List Char := beforeFirstL decoratorSplit.toList source.toList
+def headerOf (source : String) : List Char :=
+  if headerStripsComments then stripCommentsL false (rawHeaderOf source) else rawHeaderOf source
 /-- the text a predicate searches: the decorator lines only (repaired predicates) or the whole source -/
 def scopeOf (header : Bool) (source : String) : List Char := if header then headerOf source else source.toList
 def flagsOfSource (name source : String) : SrcFlags :=
@@ -113,7 +123,7 @@ def flagsOfSource (name source : String) : SrcFlags :=
     isStatic := isInfixL staticNeedle.toList (scopeOf staticInHeader source)
     isSetter := isInfixL (setterPrefix ++ name ++ setterSuffix).toList (scopeOf setterInHeader source)
     isPedantic := pedanticNeedles.any (fun n => isInfixL n.toList (scopeOf pedanticInHeader source))
-    numDecorators := countOccL decoratorMark.toList (headerOf source) }
+    numDecorators := countOccL decoratorMark.toList (if numDecoratorsCountedInHeaderLines then headerOf source else rawHeaderOf source) }
 def Fn.wantsArgs (f : Fn) : Bool := f.flags.wantsArgs
 def Fn.isStatic (f : Fn) : Bool := f.flags.isStatic
 def Fn.isSetter (f : Fn) : Bool := f.flags.isSetter
